@@ -92,7 +92,7 @@ class Ctx:
             print("  signature: %s" % sig)
             print("  " + desc.replace("\n", "\n  "))
             rc = 1
-            if len(seen) >= 8:
+            if len(seen) >= 60:
                 break
         ev = {"property_id": self.prop, "tier": self.tier, "seed": self.seed,
               "level": self.level, "coverage": self.cov,
